@@ -13,6 +13,7 @@ Record case := { c_senders : nat; c_per_sender : nat;   (* chain mode: 1 sender,
                  c_restarts : nat;
                  c_spawnrace : bool;      (* the messages were sent while the actor's Started handler was still running *)
                  c_spawn_early : bool;    (* Spawn returned before Started had been handled *)
+                 c_stoprace : bool;       (* a stop request raced restarts and senders: not everything sent is delivered *)
                  c_anomalies : nat }.     (* children-race runs: nil entries in Context.Children(), dead letters for a nil target *)      (* scripted panics (each delivered once, to the incarnation it kills) *)
 
 (* the subsequence of sequence numbers received from sender s *)
@@ -26,7 +27,20 @@ Fixpoint list_eqb (a b : list nat) : bool :=
 Definition is_marker (g : got) : bool := Nat.eqb (g_from g) 9.
 Definition msgs_of (l : list got) : list got := filter (fun g => negb (is_marker g)) l.
 
+(* strictly increasing: in order, nothing twice *)
+Fixpoint increasing (lo : nat) (l : list nat) : bool :=
+  match l with [] => true | x :: l' => Nat.ltb lo x && increasing x l' end.
+
+(* stop-race runs: the harness counts as anomalies a Stopped count other than one for the stopped
+   incarnation (more than one for a crashed one), any delivery to an incarnation after its Stopped, a
+   stop context that is done before the Stopped handler returned, an id still registered afterwards;
+   here: no two Receive calls at once, and what was delivered is in per-sender order without repetition *)
+Definition oracle_stoprace (c : case) : bool :=
+  negb (c_hang c) && negb (c_overlap c) && Nat.eqb (c_anomalies c) 0 &&
+  forallb (fun s => increasing 0 (seqs_of s (c_got c))) (seq 0 (c_senders c)).
+
 Definition oracle (c : case) : bool :=
+  if c_stoprace c then oracle_stoprace c else
   negb (c_hang c) && negb (c_overlap c) && negb (c_spawn_early c) && Nat.eqb (c_anomalies c) 0 &&
   (if c_spawnrace c then match c_got c with g :: _ => is_marker g | [] => false end else true) &&
   Nat.eqb (length (msgs_of (c_got c))) (c_senders c * c_per_sender c) &&
@@ -44,6 +58,7 @@ Definition branches (c : case) : list nat :=
   (if Nat.eqb (c_senders c) 1 && Nat.ltb 300 (c_per_sender c) then [3] else []) ++
   (if Nat.ltb 0 (c_restarts c) then [4] else []) ++
   (if c_spawnrace c then [5] else []) ++
+  (if c_stoprace c then [7] else []) ++
   (if Nat.eqb (c_senders c) 0 then [6] else []).   (* children-race runs have no senders *)
 
 Fixpoint failing {A} (f : A -> bool) (i : nat) (l : list A) : list nat :=
